@@ -32,6 +32,7 @@ class SExc:
         self.args = tuple(args)
         self.site = site
         self.cause = None
+        self.attrs = {}  # modelled instance attributes (read by `exc.<name>` in the interpreted code)
 
     def __repr__(self):
         return f"{self.cls.__name__}{self.args!r}@{self.site}"
